@@ -12,6 +12,7 @@ import Model.Inproc
 import Model.InprocPipe
 import Model.Proto.ReqClose
 import Model.Proto.RepClose
+import Model.Proto.RepPipes
 import Model.Proto.CommonLemmas
 import Model.Proto.Pair
 import Model.Proto.Push
@@ -666,5 +667,32 @@ theorem closed_inproc_pipe_parks_nobody (s : InprocPipe.State) (hr : InprocPipe.
     simp [InprocPipe.step, hc]
   · intro d c
     simp [InprocPipe.step, hc]
+
+/-! ### Blocked Sends of REP / RESPONDENT / XREP / XRESPONDENT and their pipes (`Model/Proto/RepPipes.lean`) -/
+
+/-- in every state any of the four flavours can reach, a Send that is blocked waits on a pipe that is still connected … -/
+theorem blocked_reply_waits_on_a_connected_pipe (f : Proto.Rep.Flavor) (site : HopSite) (s : Proto.Rep.State)
+    (hr : Proto.Rep.Reach f site s) : ∀ x ∈ s.parkedSend, ∃ p ∈ s.pipes, p.id = x.pipe :=
+  Proto.Rep.reach_M f site s hr
+
+/-- … the removal of a pipe releases every Send blocked on it: none is left, and each gets its result … -/
+theorem pipe_removal_releases_its_blocked_sends (s : Proto.Rep.State) (p : Nat) :
+    (∀ x ∈ (Proto.Rep.dropPipe s p).1.parkedSend, x.pipe ≠ p) ∧
+    (Proto.Rep.dropPipe s p).2.map (·.1) = (s.parkedSend.filter (fun x => x.pipe == p)).map (·.call) := by
+  refine ⟨Proto.Rep.dropPipe_releases s p, ?_⟩
+  unfold Proto.Rep.dropPipe
+  simp only []
+  split <;> simp [List.map_map, Function.comp_def]
+
+/-- … so once every pipe has gone — which is what Socket.Close does (`nothing_remains_after_close`) — no Send is blocked,
+    on the raw flavours too, whose SendMsg has no close case besides the pipe's -/
+theorem no_pipes_no_blocked_send (f : Proto.Rep.Flavor) (site : HopSite) (s : Proto.Rep.State)
+    (hr : Proto.Rep.Reach f site s) (hp : s.pipes = []) : s.parkedSend = [] := by
+  cases hps : s.parkedSend with
+  | nil => rfl
+  | cons x xs =>
+    obtain ⟨p, hp1, _⟩ := Proto.Rep.reach_M f site s hr x (by rw [hps]; exact List.mem_cons_self)
+    rw [hp] at hp1
+    cases hp1
 
 end Props.C10
